@@ -473,6 +473,8 @@ def bip38_decrypt(encrypted_privkey, password):
     :return tuple (bytes, bytes, boolean, dict): (Private Key bytes, 4 byte address hash for verification, compressed?, dictionary with additional info)
     """
     d = change_base(encrypted_privkey, 58, 256)
+    if len(d) != 43 or d[-4:] != double_sha256(d[:-4])[:4]:
+        raise EncodingError("Invalid BIP38 encrypted key, length must be 43 bytes and checksum correct")
     identifier = d[0:2]
     flagbyte = d[2:3]
     address_hash: bytes = d[3:7]
